@@ -7,7 +7,7 @@ describe_assignment_target / analyze_with_blocks returned; Coq checks compile_ta
 sequence, describe-model = real result, result = the property's expectation (render / None).
 Direct oracle: start_line vs ast lineno, varname vs the ast target (ast.dump equality modulo what the
 compiler erases).  extra_legs: the runtime leg (suspended generators / coroutines, stackscope.extract),
-and in the thorough tier the same legs under the other installed interpreters."""
+and the same legs under CPython 3.11 / 3.10 / 3.9 (children started concurrently, both tiers)."""
 import ast
 import json
 import os
@@ -34,7 +34,8 @@ RULE = ("with-items of (a) hand-written programs covering every documented targe
         "loops/if) x random targets (names fast/global/cell, attributes, subscripts by const/name/expression, slices, "
         "positional and method calls, nested (starred) tuples/lists; 25% contain an unsupported form: arithmetic, walrus, "
         "keyword/starred call, tuple display, stepped slice), (c) every with-item of the standard library (quick: every "
-        "6th file), (d) thorough: the generated programs compiled by CPython 3.11 (version V311 of the compiler model), "
+        "6th file), (d) the generated programs compiled and run by CPython 3.11 (version V311 of the compiler model, kind main) "
+        "and by 3.10 / 3.9 (kind raw: decompiler model vs real result; plus the runtime ast oracle there), "
         "(e) kind fb: every context of the suspended generated programs (static description + frame locals with object "
         "identities -> reported varname; managers are pre-bound to locals in 25% of the items; two suspensions per program, "
         "the holding locals cleared or the manager re-bound under another name in between; every inspection done twice), "
@@ -61,9 +62,9 @@ CONFIG = dict(
                   "= target node modulo List/Tuple and omitted slice bounds), not by a Coq parser"],
     assumptions=["dis.Bytecode(code) without caches is the instruction stream the implementation sees",
                  "start_line correctness is a statement about the compiler's line attribution of BEFORE_WITH: tie only (no theorem)"],
-    unproved_legs=["CPython 3.11 / 3.10 / 3.9: runtime + static legs run as subprocesses in the thorough tier (ast oracle only; "
-                   "the Coq compiler model covers 3.12 and, for the store sequences, 3.11; the 3.9/3.10 block-stack path is "
-                   "covered by the runtime oracle only)",
+    unproved_legs=["CPython 3.10 / 3.9 (both tiers, as subprocesses): no Coq compiler model; the real store sequences are checked "
+                   "against the decompiler model only (kind raw) and Context.varname/start_line by the runtime ast oracle; "
+                   "3.11 and 3.12 are covered by the compiler model (V311 / V312) in both tiers",
                    "soundness of describe on arbitrary (non-compiler) instruction streams is not claimed (DUP_TOP duplicates text)"],
     timeout={"quick": 900, "thorough": 5400},
     NOTES=("Finding F16 (constants whose repr is not source-equivalent in their position: `as d[...]`, `as (1).x`, `as (-1).x`) "
@@ -211,26 +212,36 @@ def make_inputs(tier, seed):
     nprog = 250 if tier == "quick" else 3000
     for n in range(nprog):
         progs.append(G.gen_program(rng, tdepth=2 if n % 4 else 3))
+    # CPython 3.11 / 3.10 / 3.9 run the same programs concurrently with the 3.12 cases
+    other_specs = progs if tier == "quick" else progs[:900]
+    children = {}
+    for name, py, shims in OTHER_PYTHONS:
+        if os.path.exists(py):
+            children[name] = start_other(py, shims, other_specs, sites=True)
+        else:
+            _SUBRES[name] = "absent"
     for spec in progs:
         for n in range(len(gen_sites(spec))):
             d = {"src": "gen", "spec": spec, "site": n}
             if spec.get("bigconsts"):
                 d["_kind"] = "raw"  # EXTENDED_ARG prefixes of constants/names are outside the compiler model
             yield d
-    # the same programs compiled by CPython 3.11 (store sequences -> Coq with version V311)
-    py311 = OTHER_PYTHONS[0][1]
-    if tier == "thorough" and os.path.exists(py311):
-        sub = progs[:900]
-        r = run_other(py311, False, sub, sites=True)
-        for n, spec in enumerate(sub):
+    # the same programs under the other interpreters (children started before the 3.12 cases, see above)
+    for name, py, shims in OTHER_PYTHONS:
+        h = children.get(name)
+        if h is None:
+            continue
+        r = collect_other(h)
+        _SUBRES[name] = r
+        for n, spec in enumerate(other_specs):
             got = r.get("sites", {}).get(str(n))
             if got is None:
                 continue
-            _OTHER[json.dumps(spec, sort_keys=True)] = got
-            for k in range(len(got)):
-                d = {"src": "gen", "py": "3.11", "spec": spec, "site": k}
-                if spec.get("bigconsts"):
-                    d["_kind"] = "raw"
+            _OTHER[(name, json.dumps(spec, sort_keys=True))] = got
+            for k, o in enumerate(got):
+                d = {"src": "gen", "py": name, "spec": spec, "site": k}
+                if spec.get("bigconsts") or not (o.get("matched") and o.get("has_tree")):
+                    d["_kind"] = "raw"  # 3.9/3.10: no source positions, decompiler model vs real result only
                 yield d
     # locals fallback: contexts of suspended frames (static description + locals -> final varname)
     for spec in progs[: (len(specials()) + (80 if tier == "quick" else 1200))]:
@@ -289,10 +300,11 @@ def run_case(desc):
     if desc["src"] == "rt":
         det = rt_details(desc["spec"])
         return det[desc["ctx"]] if desc["ctx"] < len(det) else {"missing": True}
-    if desc.get("py") == "3.11":
-        key = json.dumps(desc["spec"], sort_keys=True)
+    if desc.get("py"):
+        key = (desc["py"], json.dumps(desc["spec"], sort_keys=True))
         if key not in _OTHER:
-            r = run_other(OTHER_PYTHONS[0][1], False, [desc["spec"]], sites=True)
+            name, py, shims = [x for x in OTHER_PYTHONS if x[0] == desc["py"]][0]
+            r = run_other(py, shims, [desc["spec"]], sites=True)
             _OTHER[key] = r["sites"]["0"]
         return _OTHER[key][desc["site"]]
     if desc["src"] == "gen":
@@ -321,7 +333,10 @@ def direct_oracle(desc, obs):
     if desc["src"] == "rt":
         return "context missing from the extracted stack" if obs.get("missing") else None
     if not obs.get("matched"):
-        return None  # counted in classify; the item could not be located in the ast by source position
+        # the item could not be located in the ast by source position (always so on 3.9/3.10)
+        if obs["awb"] != obs["obs"]:
+            return "analyze_with_blocks recorded varname %r, the store sequence describes as %r" % (obs["awb"], obs["obs"])
+        return None
     msgs = []
     if obs["start_line"] != obs["with_line"]:
         msgs.append("start_line %r but the with keyword is on line %r" % (obs["start_line"], obs["with_line"]))
@@ -376,7 +391,10 @@ OTHER_PYTHONS = [("3.11", "/root/.pyenv/versions/3.11.7/bin/python", False),
                  ("3.9", "/root/.pyenv/versions/3.9.18/bin/python", True)]
 
 
-def run_other(py, shims, specs, timeout=1500, sites=False):
+_SUBRES = {}
+
+
+def _other_env(shims):
     from .common import REPO, ROOT
     path = [REPO, ROOT]
     if shims:
@@ -384,7 +402,46 @@ def run_other(py, shims, specs, timeout=1500, sites=False):
             if os.path.isdir(d):
                 path.insert(1, d)
                 break
-    env = dict(os.environ, PYTHONPATH=os.pathsep.join(path), PYTHONHASHSEED="0", PYTHONDONTWRITEBYTECODE="1")
+    return dict(os.environ, PYTHONPATH=os.pathsep.join(path), PYTHONHASHSEED="0", PYTHONDONTWRITEBYTECODE="1"), ROOT
+
+
+def start_other(py, shims, specs, sites=False):
+    """start harness.c08_sub under another interpreter (runs while this process does its own cases)"""
+    import tempfile
+    import threading
+    env, root = _other_env(shims)
+    err = tempfile.TemporaryFile(mode="w+")
+    p = subprocess.Popen([py, "-m", "harness.c08_sub"] + (["--sites"] if sites else []), stdin=subprocess.PIPE,
+                         stdout=subprocess.PIPE, stderr=err, text=True, env=env, cwd=root)
+    box = {}
+
+    def pump():  # feed stdin and drain stdout so that neither side blocks on a full pipe
+        try:
+            p.stdin.write(json.dumps(specs))
+            p.stdin.close()
+            box["out"] = p.stdout.read()
+        except BaseException as ex:
+            box["exc"] = repr(ex)
+    t = threading.Thread(target=pump, daemon=True)
+    t.start()
+    return p, t, box, err
+
+
+def collect_other(h, timeout=2400):
+    p, t, box, err = h
+    t.join(timeout)
+    if t.is_alive():
+        p.kill()
+        return {"error": "timed out"}
+    p.wait()
+    if p.returncode != 0 or "out" not in box:
+        err.seek(0)
+        return {"error": "rc=%s %s %s" % (p.returncode, box.get("exc", ""), err.read()[-1500:])}
+    return json.loads(box["out"])
+
+
+def run_other(py, shims, specs, timeout=1500, sites=False):
+    env, ROOT = _other_env(shims)
     p = subprocess.run([py, "-m", "harness.c08_sub"] + (["--sites"] if sites else []), input=json.dumps(specs), stdout=subprocess.PIPE, stderr=subprocess.PIPE,
                        text=True, env=env, timeout=timeout, cwd=ROOT)
     if p.returncode != 0:
@@ -413,21 +470,20 @@ def extra_legs(tier, seed):
         for p in probs[:2]:
             viol.append({"what": "runtime leg: " + p, "input": {"spec": spec, "source": G.build_source(spec)}})
     info["runtime_3.12"] = dict(programs=len(specs), contexts=nctx, **stats)
-    if tier == "thorough":
-        sub = specs[: 1500]
-        for name, py, shims in OTHER_PYTHONS:
-            if not os.path.exists(py):
-                info["python_" + name] = "absent"
-                continue
-            try:
-                r = run_other(py, shims, sub)
-            except BaseException as ex:
-                r = {"error": repr(ex)}
-            info["python_" + name] = {k: v for k, v in r.items() if k != "problems"}
-            if "error" in r:
-                viol.append({"what": "leg under CPython %s did not run: %s" % (name, r["error"]), "input": None})
-                continue
-            n_eval += r.get("programs", 0)
-            for p in r.get("problems", [])[:3]:
-                viol.append({"what": "CPython %s: %s" % (name, p["what"]), "input": p["input"]})
+    # runtime + static legs under the other interpreters: results of the children started in make_inputs
+    for name, py, shims in OTHER_PYTHONS:
+        r = _SUBRES.get(name)
+        if r is None:  # replay mode / make_inputs not run in this process
+            continue
+        if r == "absent":
+            info["python_" + name] = "absent"
+            continue
+        info["python_" + name] = {k: v for k, v in r.items() if k not in ("problems", "sites")}
+        if "error" in r:
+            viol.append({"what": "leg under CPython %s did not run: %s" % (name, r["error"]), "input": None})
+            continue
+        info["python_" + name]["sites"] = sum(len(v) for v in r.get("sites", {}).values())
+        n_eval += r.get("programs", 0)
+        for p in r.get("problems", [])[:3]:
+            viol.append({"what": "CPython %s: %s" % (name, p["what"]), "input": p["input"]})
     return dict(evaluations=n_eval, violations=viol, info=info, known_reproduced=[])
